@@ -853,6 +853,12 @@ func (ctx *Context) evaluate() {
 				return
 			}
 
+		case typeStoreNameLocal:
+			// this.x = v : 写入当前作用域，与 store 一样把值留在栈上(赋值是表达式)。
+			// 这条指令此前没有对应的分支，赋值被悄悄丢掉了
+			v := e.stack[e.top-1].Clone()
+			ctx.StoreNameLocal(code.Value.(string), v)
+
 		case typeJe, typeJeDup:
 			v := stackPop()
 			if v.AsBool() {
